@@ -93,6 +93,8 @@ def worker(case):
     out = os.path.join(core.scratch_dir(), "rt_%d.v" % os.getpid())
     try:
         with core.quiet():
+            # written twice: the text that is read back is the one of the *second* call
+            s.compose(n, os.path.join(core.scratch_dir(), "rt_first_%d.v" % os.getpid()), write_blackbox=wb, defparam=dp)
             s.compose(n, out, write_blackbox=wb, defparam=dp)
     except Exception as ex:
         probs.append(("compose-raised:%s:%s" % (type(ex).__name__, tag), repr(ex)[:200]))
